@@ -3,17 +3,19 @@ from props.common import run_all as run  # noqa: F401
 META = {'claimed': True,
  'title': 'Allocation failure is reported, leaves objects unchanged and leaks nothing',
  'level_text': 'proof for the containers, partial proof + fault enumeration for registrations and I/O: the allocator is an oracle answering every malloc/realloc of the models in program order and '
-               'the theorems hold for EVERY oracle (k-th failure, persistent failure, all-refusing). Elastic array / queue / sequential map: a refused request <-> the documented error value, every '
-               'field of the state equal to the state before, invariant intact so the object stays usable (C14_ea/eq/spm_fail_unchanged); shrink, delete and free return normally with their ideal '
-               'result under every oracle (C14_*_infallible); exact block accounting on a ghost heap - nothing leaked, nothing freed twice, whole programs (C14_ea_run_no_leak, C14_eq/spm_no_leak). '
-               'Pointer heap and timer queue: refusal <-> NULL/-1 with the heap unchanged and nothing notified (C14_ptrheap_add_fail_unchanged, C14_tq_add_fail_unchanged), deletions/getptr '
-               'infallible under the all-refusing oracle with full C13 meaning, per-call block accounting and free releasing everything (C14_*_acct). Event registrations (partial): a failing '
-               'register leaves every library structure as it was, is never invoked and does not block a later registration (C14_events_failed_registration_*_partial). Network/netbuf (partial): '
-               'refused cookie/registration -> NULL and nothing registered; netbuf_write_reserve failure leaves the writer unchanged (repaired defect F6, regression theorem); netbuf_read_wait '
-               'failure leaves the window and view unchanged. 33 theorems. What the models do not carry (which C allocation maps to which oracle answer inside mpool/elastic internals, failure inside '
-               'callbacks, leak-freedom through the whole I/O, HTTP, AWS and key-file stacks, no crash) is decided by enumeration on the compiled code: every allocation index of every operation '
-               'refused once and persistently (wrapped malloc/realloc/strdup/asprintf), documented return value checked, retry must succeed, LeakSanitizer + exit-time block accounting per forked '
-               'case.',
+               'the theorems hold for EVERY oracle (k-th failure, persistent failure, all-refusing). Elastic array / queue / sequential map: a refused request -> the documented error value, every '
+               'field of the state equal to the state before, invariant intact so the object stays usable (C14_ea/eq/spm_fail_unchanged); conversely error value -> refused for queue and map '
+               '(C14_eq/spm_fail_iff), and for the array error value <-> refused or byte count not representable in size_t (C14_ea_fail_iff, C14_ea_error_without_refusal); shrink, delete and free '
+               'return normally with their ideal result under every oracle (C14_*_infallible); block accounting on a ghost heap of block SIZES - allocations and frees balance per size, nothing '
+               'leaked, no free without a live block of that size, whole programs (C14_ea/eq/spm_run_no_leak); a double free among equal-sized live blocks is not distinguishable in the proof and is '
+               'covered only by the pointer-keyed wrapped allocator + ASan in the correspondence run. Pointer heap and timer queue: refusal <-> NULL/-1 with the heap unchanged and nothing notified '
+               '(C14_ptrheap_add_fail_unchanged, C14_tq_add_fail_unchanged), deletions/getptr infallible under the all-refusing oracle with full C13 meaning, per-call block accounting and free '
+               'releasing everything (C14_*_acct). Event registrations (partial): a failing register leaves every library structure as it was, is never invoked and does not block a later '
+               'registration (C14_events_failed_registration_*_partial). Network/netbuf (partial): refused cookie/registration -> NULL and nothing registered; netbuf_write_reserve failure leaves the '
+               'writer unchanged (repaired defect F6, regression theorem); netbuf_read_wait failure leaves the window and view unchanged. 39 theorems. What the models do not carry (which C '
+               'allocation maps to which oracle answer inside mpool/elastic internals, failure inside callbacks, leak-freedom through the whole I/O, HTTP, AWS and key-file stacks, no crash) is '
+               'decided by enumeration on the compiled code: every allocation index of every operation refused once and persistently (wrapped malloc/realloc/strdup/asprintf), documented return value '
+               'checked, retry must succeed, LeakSanitizer + exit-time block accounting per forked case.',
  'level_note': 'Trusted: Coq kernel; hand-written models bound by differential execution; the correspondence of oracle positions to real allocation sites is by enumeration, not proof; LeakSanitizer '
                'for leak verdicts in the I/O stacks. Print Assumptions: closed under the global context.',
  'trusted_base': ['allocation wrappers (--wrap=malloc,realloc,calloc,strdup,...) in the drivers', 'LeakSanitizer'],
